@@ -323,3 +323,109 @@ Proof.
   cbn [orb negb Bool.eqb]. intros [= <- <-]. split; [reflexivity|].
   rewrite Z.abs_eq by lia. change (Z.abs 1) with 1%Z. rewrite Z.div_1_r. lia.
 Qed.
+
+(* ---------------------------------------------------------------------- *)
+(* tiled segmentation placed by the caller: the recorded origin is the      *)
+(* caller's, whichever branch ('locations preserved' or not) wrote it        *)
+(* ---------------------------------------------------------------------- *)
+Lemma v3_eqb_veq : forall a b, v3_eqb a b = true -> a =v= b.
+Proof.
+  intros a b H. unfold v3_eqb in H.
+  apply andb_true_iff in H as (H & Hz). apply andb_true_iff in H as (Hx & Hy).
+  repeat split; apply Qeq_bool_eq; assumption.
+Qed.
+
+Lemma placed_origin_recorded :
+  forall src_org usr_org npos rp cp o_given src_rc src_cc u_rc u_cc m_given
+         src_spr src_spc u_spr u_spc srcR srcC MR MC src_th src_tw th tw o,
+  placed_origin src_org usr_org npos rp cp o_given src_rc src_cc u_rc u_cc m_given
+                src_spr src_spc u_spr u_spc srcR srcC MR MC src_th src_tw th tw = Ok o ->
+  o =v= usr_org.
+Proof.
+  intros src_org usr_org npos rp cp o_given src_rc src_cc u_rc u_cc m_given
+         src_spr src_spc u_spr u_spc srcR srcC MR MC src_th src_tw th tw o.
+  unfold placed_origin.
+  destruct (negb (npos =? 1)%Z); [discriminate|].
+  destruct (negb ((rp =? 1)%Z && (cp =? 1)%Z)); [discriminate|].
+  destruct (v3_eqb usr_org src_org) eqn:E; cbn [andb].
+  - destruct ((negb o_given || (v3_eqb u_rc src_rc && v3_eqb u_cc src_cc)) &&
+              (negb m_given || (Qeq_bool u_spr src_spr && Qeq_bool u_spc src_spc))).
+    + destruct (negb ((MR =? srcR)%Z && (MC =? srcC)%Z)); [discriminate|].
+      destruct ((th =? src_th)%Z && (tw =? src_tw)%Z); intros [= <-].
+      * apply veq_sym, v3_eqb_veq, E.
+      * apply veq_refl.
+    + intros [= <-]. apply veq_refl.
+  - intros [= <-]. apply veq_refl.
+Qed.
+
+(* exact characterisation of the refusals of the constructor *)
+Lemma placed_origin_refused_iff :
+  forall src_org usr_org npos rp cp o_given src_rc src_cc u_rc u_cc m_given
+         src_spr src_spc u_spr u_spc srcR srcC MR MC src_th src_tw th tw k,
+  placed_origin src_org usr_org npos rp cp o_given src_rc src_cc u_rc u_cc m_given
+                src_spr src_spc u_spr u_spc srcR srcC MR MC src_th src_tw th tw = Err k <->
+  (k = "ValueError"%string /\
+   (negb (npos =? 1)%Z
+    || negb ((rp =? 1)%Z && (cp =? 1)%Z)
+    || (v3_eqb usr_org src_org
+        && (negb o_given || (v3_eqb u_rc src_rc && v3_eqb u_cc src_cc))
+        && (negb m_given || (Qeq_bool u_spr src_spr && Qeq_bool u_spc src_spc))
+        && negb ((MR =? srcR)%Z && (MC =? srcC)%Z))) = true).
+Proof.
+  intros. unfold placed_origin.
+  destruct (negb (npos =? 1)%Z); cbn [orb].
+  { split; [intros [= <-]; split; reflexivity|intros (-> & _); reflexivity]. }
+  destruct (negb ((rp =? 1)%Z && (cp =? 1)%Z)); cbn [orb].
+  { split; [intros [= <-]; split; reflexivity|intros (-> & _); reflexivity]. }
+  destruct (v3_eqb usr_org src_org && (negb o_given || (v3_eqb u_rc src_rc && v3_eqb u_cc src_cc)) &&
+            (negb m_given || (Qeq_bool u_spr src_spr && Qeq_bool u_spc src_spc))); cbn [andb].
+  - destruct (negb ((MR =? srcR)%Z && (MC =? srcC)%Z)).
+    + split; [intros [= <-]; split; reflexivity|intros (-> & _); reflexivity].
+    + split; [discriminate|intros (_ & H); discriminate H].
+  - split; [discriminate|intros (_ & H); discriminate H].
+Qed.
+
+(* a tile recorded per frame lies on the geometry rebuilt from the same origin *)
+Lemma tile_on_geometry : forall org rowcos colcos spr spc sbs r0 c0,
+  tile_pos org rowcos colcos spr spc r0 c0 =v=
+  physZ (tiled_geometry org rowcos colcos spr spc sbs) 0 r0 c0.
+Proof.
+  intros [px py pz] [x1 y1 z1] [x2 y2 z2] spr spc sbs r0 c0.
+  unfold tile_pos, tiled_geometry, physZ.
+  generalize (inject_Z r0) (inject_Z c0). intros qr qc.
+  change (inject_Z 0) with 0.
+  unfold attr_aff, normal, phys, vadd, vscale, veq, vcross; cbn [vx vy vz a0 a1 a2 atr].
+  repeat split; ring.
+Qed.
+
+Lemma tile_frames_on_geometry : forall org rowcos colcos spr spc sbs MR MC th tw M omit r c p,
+  In (r, c, p) (tile_frames org rowcos colcos spr spc MR MC th tw M omit) ->
+  p =v= physZ (tiled_geometry org rowcos colcos spr spc sbs) 0 (r - 1) (c - 1).
+Proof.
+  intros org rowcos colcos spr spc sbs MR MC th tw M omit r c p H.
+  unfold tile_frames in H. apply in_map_iff in H as ([r0 c0] & E & _).
+  cbn [fst snd] in E. injection E as <- <- <-.
+  replace (r0 + 1 - 1)%Z with r0 by lia. replace (c0 + 1 - 1)%Z with c0 by lia.
+  apply tile_on_geometry.
+Qed.
+
+(* end to end for the placement: voxel (0, r, c) of the geometry the image
+   reports lies where the caller's affine (any stacking direction d0 and slice
+   spacing s0) put it *)
+Lemma placed_voxel_fixed :
+  forall src_org usr_org npos rp cp o_given src_rc src_cc u_rc u_cc m_given
+         src_spr src_spc u_spr u_spc srcR srcC MR MC src_th src_tw th tw o,
+  placed_origin src_org usr_org npos rp cp o_given src_rc src_cc u_rc u_cc m_given
+                src_spr src_spc u_spr u_spc srcR srcC MR MC src_th src_tw th tw = Ok o ->
+  forall rowcos colcos spr spc sbs d0 s0 (r c : Z),
+  physZ (tiled_geometry o rowcos colcos spr spc sbs) 0 r c =v=
+  physZ (vol_aff usr_org d0 colcos rowcos s0 spr spc) 0 r c.
+Proof.
+  intros until o. intros H rowcos colcos spr spc sbs d0 s0 r c.
+  apply placed_origin_recorded in H. destruct H as (X & Y & Z).
+  unfold physZ. generalize (inject_Z r) (inject_Z c). intros qr qc. change (inject_Z 0) with 0.
+  destruct o as [ox oy oz], usr_org as [ux uy uz], rowcos as [x1 y1 z1], colcos as [x2 y2 z2], d0 as [a b e].
+  unfold tiled_geometry, attr_aff, vol_aff, normal, phys, vadd, vscale, veq, vcross in *;
+    cbn [vx vy vz a0 a1 a2 atr] in *.
+  rewrite X, Y, Z. repeat split; ring.
+Qed.
